@@ -76,7 +76,7 @@ func common(x *vsched.Execution) []vsched.Violation {
 // code under test can end; whatever is still blocked afterwards is a leak / deadlock.
 func finisher(f func()) {
 	vsched.Go("finisher", func() {
-		vsched.SleepL(0, "quiesce")
+		vsched.Quiesce()
 		vsched.Final()
 		f()
 	})
